@@ -44,19 +44,74 @@ def _leaves(e, fn, depth=0):
             if isinstance(v, ast.FormattedValue):
                 out += _leaves(v.value, fn, depth)
         return out
+    if isinstance(e, (ast.List, ast.Tuple)):
+        out = []
+        for x in e.elts:
+            out += [(x, False)] if isinstance(x, ast.Starred) else _leaves(x, fn, depth)
+        return out
     if isinstance(e, ast.Name):
         ds = norm.fn_defs(fn.node).defs.get(e.id, [])
         vals = [v for _d, v in ds if v is not None]
         if len(ds) == 1 and vals:
+            if isinstance(vals[0], (ast.List, ast.ListComp)):
+                # a list accumulator: what is joined is what it started with plus everything that was ever put into it
+                return _leaves(vals[0], fn, depth + 1) + _accumulated(e, ds[0][0], fn, depth + 1)
             return _leaves(vals[0], fn, depth + 1)
-        # a parameter: safe if a top-level statement `_safe_header(name)` precedes the use
-        for st in fn.node.body:
-            if st.lineno >= e.lineno:
-                break
-            if isinstance(st, ast.Expr) and M.match(M.compile_pat(f"_safe_header({e.id})"), st.value) is not None:
-                return [(e, True)]
-        return [(e, False)]
+        # a parameter / loop variable: safe if a statement `_safe_header(name)` lies on every path from each of its bindings to the use
+        return [(e, _checked_on_every_path(fn, e))]
     return [(e, False)]
+
+
+def _accumulated(use, def_stmt, fn, depth):
+    """Leaves of everything put into the list local `use.id` (defined once, by def_stmt): `.append(x)`, `.extend(xs)`, `.insert(i, x)`, `+= xs`.
+    Any other occurrence of the name that could change the list (passed to a call, stored into, aliased) is an unchecked leaf."""
+    out = []
+    for n in ast.walk(fn.node):
+        if not (isinstance(n, ast.Name) and n.id == use.id) or n is use:
+            continue
+        par = getattr(n, "parent", None)
+        if par is def_stmt:
+            continue
+        call = getattr(par, "parent", None)
+        if isinstance(par, ast.Attribute) and par.value is n and isinstance(call, ast.Call) and call.func is par and not call.keywords:
+            if par.attr in ("append", "extend") and len(call.args) == 1 and not isinstance(call.args[0], ast.Starred):
+                out += _leaves(call.args[0], fn, depth)
+                continue
+            if par.attr == "insert" and len(call.args) == 2 and not any(isinstance(a, ast.Starred) for a in call.args):
+                out += _leaves(call.args[1], fn, depth)
+                continue
+        if isinstance(par, ast.AugAssign) and par.target is n and isinstance(par.op, ast.Add):
+            out += _leaves(par.value, fn, depth)
+            continue
+        if isinstance(par, ast.Call) and n in par.args and isinstance(par.func, ast.Attribute) and par.func.attr == "join" and len(par.args) == 1:
+            continue  # another read of the same kind as `use`: it changes nothing
+        out.append((n, False))
+    return out
+
+
+def _checked_on_every_path(fn, e) -> bool:
+    """No path from a binding of the name e.id (entry for a parameter, the loop head for a loop variable, the assignment otherwise) to the
+    statement that uses it avoids a statement `_safe_header(<name>)`: what is written is the value that was checked."""
+    g = cfg_of(fn.node)
+    uses = g.nodes_of(e)
+    pat = M.compile_pat(f"_safe_header({e.id})")
+    safe = [n for n in g.nodes if n.kind == "stmt" and isinstance(n.ast, ast.Expr) and M.match(pat, n.ast.value) is not None]
+    if not uses or not safe:
+        return False
+    starts = []
+    for d, _v in norm.fn_defs(fn.node).defs.get(e.id, []):
+        if isinstance(d, ast.arg):
+            starts.append(g.entry)
+        elif isinstance(d, ast.comprehension):
+            return False  # bound inside an expression: no statement can stand between the binding and the use
+        else:
+            dn = g.nodes_of(d)
+            if not dn:
+                return False
+            starts += dn
+    if not starts or any(s in uses for s in starts):
+        return False
+    return g.find_path(starts, lambda n: n in uses, lambda n: n in safe, EXPLICIT) is None
 
 
 def sanitise_block(chk, repo, folder, fn, rule, what):
@@ -292,7 +347,9 @@ def run(chk):
     else:
         chk.violation("C04.length", wr, "if self.length is not None: ...", "before every emission", "body bytes can be emitted without being charged against the declared length (more bytes than Content-Length)")
     tr = [s for s in ast.walk(wr.node) if isinstance(s, ast.Assign) and norm.raw(s) == "chunk = chunk[:self.length]"]
-    if tr and PC.has_lit(PC.pc(tr[0], raw=True), "self.length < chunk_len", True) is not None or (tr and PC.has_lit(PC.pc(tr[0], raw=True), "self.length >= chunk_len", False) is not None):
+    # the cut is made exactly when the chunk is longer than what is left: `self.length < len(chunk)` in either operand order (`>=` / `<=` reach the
+    # path condition as the negated strict comparison), the length taken from the chunk directly or through a local (resolved to its definition)
+    if tr and PC.has_lit(PC.pc(tr[0]), [("self.length < $N", True), ("$N > self.length", True)], True, {"N": ast.parse("len(chunk)", mode="eval").body}) is not None:
         chk.ok("C04.length", tr[0], "a chunk longer than the remaining declared length is truncated to it")
     else:
         chk.violation("C04.length", wr, "chunk = chunk[:self.length]", "when length < len(chunk)", "excess body bytes are not truncated")
